@@ -41,7 +41,7 @@ pub enum Variant {
 	Struct(&'static str, &'static [&'static str], Vec<(&'static str, DTarget)>),
 }
 impl Variant {
-	fn name(&self) -> &'static str {
+	pub fn name(&self) -> &'static str {
 		match self {
 			Variant::Unit(n) | Variant::Newtype(n, _) | Variant::Tuple(n, _) | Variant::Struct(n, _, _) => n,
 		}
